@@ -11,6 +11,7 @@ package main
 import (
 	"errors"
 	"fmt"
+	"net"
 	"reflect"
 	"sort"
 	"strings"
@@ -1138,6 +1139,67 @@ func realComponentProducts(res *vkit.Result) {
 	}
 }
 
+// builtInFactoryProducts: every product of one built-in gun factory carries the same
+// configuration (defaults overlaid by the pool's settings), the first like the fifth. The target
+// is given by name and is reachable, so whatever the gun derives from it while the config is
+// decoded (the pre-resolved address) is part of that configuration.
+func builtInFactoryProducts(res *vkit.Result) {
+	ln, err := net.Listen("tcp", "127.0.0.1:0")
+	if err != nil {
+		res.Inconclusive(true, "listen: %v", err)
+		return
+	}
+	defer ln.Close()
+	go func() {
+		for {
+			c, err := ln.Accept()
+			if err != nil {
+				return
+			}
+			c.Close()
+		}
+	}()
+	_, port, _ := net.SplitHostPort(ln.Addr().String())
+	for _, gunType := range []string{"http", "http2", "connect", "http/scenario", "http2/scenario"} {
+		c := map[string]any{"gun": gunType, "target": "localhost:<port>", "products": 5}
+		ec, err := vkit.DecodePools(map[string]any{"pools": []any{map[string]any{"id": "p",
+			"gun":    map[string]any{"type": gunType, "target": "localhost:" + port},
+			"ammo":   map[string]any{"type": "dummy"},
+			"result": map[string]any{"type": "discard"},
+			"rps":    map[string]any{"type": "once", "times": 1}, "startup": map[string]any{"type": "once", "times": 1}}}})
+		if err != nil {
+			res.Inconclusive(true, "pool of %s guns rejected: %v", gunType, err)
+			continue
+		}
+		var first, firstDesc string
+		for i := 0; i < 5; i++ {
+			var g core.Gun
+			var gerr error
+			if pv, panicked := callSafely(func() { g, gerr = ec.Pools[0].NewGun() }); panicked || gerr != nil {
+				res.Violate("C18/built-in/"+gunType+"/factory-call", fmt.Sprintf("call %d of the gun factory: panic %v, error %v", i, pv, gerr), c)
+				break
+			}
+			f, ok := vkit.FindField(g, "Config")
+			if !ok {
+				res.Inconclusive(true, "%s gun has no Config field", gunType)
+				break
+			}
+			h := vkit.DeepHash2(f, nil)
+			tr, _ := vkit.FindField(g, "TargetResolved")
+			dc, _ := vkit.FindField(g, "DNSCache")
+			desc := fmt.Sprintf("TargetResolved=%v DNSCache=%v", tr, dc)
+			if i == 0 {
+				first, firstDesc = h, desc
+			} else if h != first {
+				res.Violate("C18/built-in/"+gunType+"/products-differ", fmt.Sprintf("product 0 of the factory has %s, product %d has %s (their configurations hash differently)", firstDesc, i, desc), c)
+				break
+			}
+			res.Count("built_in_products_compared", 1)
+		}
+		res.Eval(vkit.JSON(c), true)
+	}
+}
+
 func main() {
 	vkit.Fs() // registers the config hooks (pluginconfig.AddHooks via core import)
 	res := vkit.NewResult("exhaustive cross product of constructor shapes (component|factory × no config|struct|*struct × error result × inner error result / impl-typed result × default-config func) × requested form (New, factory with error, factory without error) × outcome (ok, constructor error, inner factory error, config error) × 1–5 factory calls with mutation of each product's config; plus every config-taking shape through the `type:` config hooks; plus plugins nested three deep in plugins of the same registered name and two overlapping creations (one held in the middle of decoding by a blocking field) for value/pointer/factory shapes; plus one decoded factory called from 16 goroutines at once (every product must come from its own freshly created default); distinct = distinct (shape, form, outcome, calls); all are non-trivial")
@@ -1169,6 +1231,7 @@ func main() {
 	registerHelpers(res)
 	selfValidatingFields(res)
 	realComponentProducts(res)
+	builtInFactoryProducts(res)
 	res.Set("exhaustive", true)
 	res.Set("shapes", len(shapes()))
 	res.Sample(Case{Shape: shapes()[5], Form: "factory-noerr", Outcome: "config-error", Calls: 2})
